@@ -142,6 +142,18 @@ func (i Inst) ValueCanon() string {
 
 // ---- leafref evaluation on the model ---------------------------------------------------------------
 
+// leafrefTargetHook, when set, sees every instance selected by LeafrefTargets (used by LeafrefTargetInsts).
+var leafrefTargetHook func(Inst)
+
+// LeafrefTargetInsts returns the instances that the leafref path of in selects (not safe for concurrent use).
+func LeafrefTargetInsts(all []Inst, in Inst) []Inst {
+	var out []Inst
+	leafrefTargetHook = func(c Inst) { out = append(out, c) }
+	defer func() { leafrefTargetHook = nil }()
+	LeafrefTargets(all, in)
+	return out
+}
+
 // LeafrefTargets evaluates the leafref path of instance in (a leaf whose schema type is a leafref)
 // against all instances of the tree and returns the loose canonical values of the selected node set.
 func LeafrefTargets(all []Inst, in Inst) map[string]Val {
@@ -192,6 +204,9 @@ func LeafrefTargets(all []Inst, in Inst) map[string]Val {
 	for _, c := range all {
 		if !matchPattern(cur, c.Elems) {
 			continue
+		}
+		if leafrefTargetHook != nil {
+			leafrefTargetHook(c)
 		}
 		if c.F.Kind == FLeafList {
 			for _, v := range c.LL {
